@@ -415,4 +415,16 @@ func (p Plain) Write(b []byte) (int, error) { return p.C.Write(b) }
 var (
 	ErrReset    = fmt.Errorf("simnet: %w", syscall.ECONNRESET)
 	ErrInjected = errors.New("simnet: injected I/O error")
+	// ErrInjectedTimeout is an injected I/O error that is a net.Error with Timeout() == true (what a deadline somebody
+	// else put on the connection, or ETIMEDOUT from a dead peer, looks like) although no deadline of the simulated
+	// connection has passed.
+	ErrInjectedTimeout error = &net.OpError{Op: "io", Net: "sim", Err: timeoutErr{}}
+	// ErrInjectedETIMEDOUT is the errno form (its Timeout method reports true as well).
+	ErrInjectedETIMEDOUT error = &net.OpError{Op: "io", Net: "sim", Err: syscall.ETIMEDOUT}
 )
+
+type timeoutErr struct{}
+
+func (timeoutErr) Error() string   { return "simnet: injected i/o timeout" }
+func (timeoutErr) Timeout() bool   { return true }
+func (timeoutErr) Temporary() bool { return true }
